@@ -152,9 +152,19 @@ func replayStream(path string, seed int64, restartEvery int) ReplaySummary {
 			}
 		case "tx":
 			bz, _ := base64.StdEncoding.DecodeString(ev.Bz)
-			if rng.Intn(4) == 0 {
+			switch rng.Intn(4) {
+			case 0:
 				a.CheckTx(abci.RequestCheckTx{Tx: bz, Type: abci.CheckTxType_New})
 				sum.CheckTxs++
+			case 1:
+				// a client estimates gas against this node for the very transaction that is about to be delivered
+				guard(WatchdogLimit, func() { a.BaseApp.Simulate(bz) })
+				sum.Simulations++
+				since = append(since, fmt.Sprintf("simulate-next@%d", lastHeader.Height))
+				if !nodekeeper.VerifSharesBeforeModified().IsZero() {
+					sum.ResidueSeen++
+					since = append(since, "residue-after-simulate")
+				}
 			}
 			var resp abci.ResponseDeliverTx
 			r := guard(WatchdogLimit, func() { resp = a.DeliverTx(abci.RequestDeliverTx{Tx: bz}) })
